@@ -492,6 +492,187 @@ def api_stage(ck, fw, corpus):
                          {"fw": fw, "case": c, "observed": r, "oracle": "rfc_judge"}, found_input=True)
 
 
+# ---------------- several connections in one process (receive side)
+def xconn_stage(ck, fw, corpus, groups, nvx=False):
+    """2-3 real connections of mixed roles / masking policies in ONE driver process; the reads of valid and mutated
+    streams (cut anywhere: inside headers, payloads, code points) are interleaved across them in a random order.  Every
+    connection must behave exactly as when it is the only one (the same reads, alone): receive state is per connection."""
+    rng = ck.rng("xconn")
+    pool = {}
+    for kind, role, masked, extra in (("client", "client", False, {}), ("server", "server", True, {}),
+                                      ("server-unmasked", "server", False, dict(mask_opt=False)),
+                                      ("client-masked", "client", True, dict(mask_opt=True))):
+        seqs = [("corpus", bytes.fromhex(c["stream"])) for c in corpus if c.get("role", role) == role and masked == (role == "server")]
+        seqs += gen_sequences(ck.rng(f"xconn/{kind}"), 40, masked=masked)
+        pool[kind] = (role, extra, [x for x in seqs if len(x[1]) >= 4])
+    kinds = ["client", "client", "server", "server-unmasked", "client-masked"]
+    cases, meta = [], []
+    for g in range(groups):
+        members = []
+        for kind in (rng.choice(kinds) for _ in range(rng.choice((2, 3, 3)))):
+            role, extra, seqs = pool[kind]
+            label, stream = rng.choice(seqs)
+            n = len(stream)
+            cuts = sorted({rng.randint(1, n - 1) for _ in range(rng.randint(2, 6))})
+            chunks = [stream[a:b] for a, b in zip([0] + cuts, cuts + [n])]
+            members.append((kind, label, dict(BASE, role=role, fbd=rng.random() < 0.5, chunks=[x.hex() for x in chunks], **extra)))
+        order = [i for i, m in enumerate(members) for _ in m[2]["chunks"]]
+        rng.shuffle(order)
+        cases.append({"xconn": [m[2] for m in members], "schedule": order})
+        meta.append(("group", members))
+        for kind, label, c in members:
+            cases.append(c)
+            meta.append(("alone", kind, label))
+    res = run_cases(ck, fw, cases, timeout=900, nvx=nvx)
+    ck.evaluations += len(cases)
+    ck.note_cases(0, (json.dumps([fw, "xconn", c["schedule"], [[m["role"], m["fbd"], m["mask_opt"], m["chunks"]] for m in c["xconn"]]])
+                      for c in cases if "xconn" in c))
+    i = 0
+    while i < len(cases):
+        members = meta[i][1]
+        together = res[i]["xconn"]
+        for j, (kind, label, c) in enumerate(members):
+            alone = res[i + 1 + j]
+            same = canon_result(together[j]) == canon_result(alone)
+            ck.bump(f"xconn:{kind}:{'same' if same else 'differs'}")
+            if not same:
+                probs_t = [k for k, _ in ws_recv.check_against_rfc(c, together[j])]
+                probs_a = [k for k, _ in ws_recv.check_against_rfc(c, alone)]
+                ck.violation(f"{'nvx/' if nvx else ''}xconn/{kind}/differs-from-alone",
+                             f"[{fw}] connection {j} ({kind}, {label}, failByDrop={c['fbd']}) of {len(members)} connections served by one process "
+                             f"({[m[0] for m in members]}, reads interleaved as {cases[i]['schedule']}): {together[j]['events'][-4:]} state {together[j]['state']}; "
+                             f"the same reads on a connection of its own: {alone['events'][-4:]} state {alone['state']}; RFC oracle: together "
+                             f"{probs_t or 'conforms'}, alone {probs_a or 'conforms'}",
+                             {"fw": fw + ("/nvx" if nvx else ""), "case": cases[i], "observed": res[i], "victim": j, "alone_case": c, "alone_observed": alone},
+                             found_input=True)
+        i += 1 + len(members)
+
+
+# ---------------- permessage-deflate: the negotiated parameters
+def deflate_stream(messages, masked, rng, reset, wbits, fragment=False):
+    """what a conforming peer sends: one compressed message per entry; reset = the peer agreed to no_context_takeover for its
+    direction (fresh LZ77 window per message), wbits = its agreed window"""
+    import zlib
+    co = None
+    frames = []
+    for binary, m in messages:
+        if co is None or reset:
+            co = zlib.compressobj(zlib.Z_DEFAULT_COMPRESSION, zlib.DEFLATED, -wbits, 8)
+        z = co.compress(m) + co.flush(zlib.Z_SYNC_FLUSH)
+        z = z[:-4]
+        key = bytes(rng.getrandbits(8) for _ in range(4))
+        op = 2 if binary else 1
+        if fragment and len(z) >= 2:
+            h = rng.randint(1, len(z) - 1)
+            frames += [enc_frame(op, z[:h], fin=False, rsv=4, masked=masked, key=key), enc_frame(0, z[h:], fin=True, masked=masked, key=key)]
+        else:
+            frames.append(enc_frame(op, z, rsv=4, masked=masked, key=key))
+    return b"".join(frames)
+
+
+def pmce_stage(ck, fw, model_cases):
+    """compression negotiated: over the parameter combinations of RFC 7692 section 7.1 (each no_context_takeover flag alone /
+    both / none; window bits per direction), three compressed messages that share content (back-references into earlier
+    messages whenever the sender keeps its context), both roles.  Oracle: the messages the peer sent are the messages
+    delivered (and the RFC oracle on the stream)."""
+    rng = ck.rng("pmce")
+    block = bytes(rng.getrandbits(8) for _ in range(64))
+    far = block + bytes(rng.getrandbits(8) for _ in range(1500)) + block        # back-reference at distance > 1024
+    text = ("the quick brown fox jumps over the lazy dog; " * 4).encode()
+    msgs = [(False, text), (False, text + b"again: " + text[:60]), (True, far), (True, block * 3 + far[:200])]
+    cases, meta = [], []
+    for role in ("server", "client"):
+        masked = role == "server"
+        for s_nct in (False, True):
+            for c_nct in (False, True):
+                for s_wb, c_wb in ((0, 0), (9, 0), (0, 10), (12, 11)):
+                    pp = dict(server_nct=s_nct, client_nct=c_nct, server_mwb=s_wb, client_mwb=c_wb)
+                    # the direction peer -> us: the server's parameters when we are the client, and vice versa
+                    reset = s_nct if role == "client" else c_nct
+                    wbits = (s_wb if role == "client" else c_wb) or 15
+                    for frag in (False, True):
+                        stream = deflate_stream(msgs, masked, rng, reset, wbits, fragment=frag)
+                        a, b = sorted((rng.randint(1, len(stream) - 1), rng.randint(1, len(stream) - 1)))
+                        for fbd in (True, False):
+                            for chunks in ([stream], [stream[:a], stream[a:b], stream[b:]]):
+                                cases.append(dict(BASE, role=role, fbd=fbd, pmc=True, pmc_params=pp, chunks=[x.hex() for x in chunks]))
+                                meta.append(pp)
+    res = run_cases(ck, fw, cases, timeout=900)
+    ck.evaluations += len(cases)
+    ck.note_cases(0, (json.dumps([fw, "pmce", c["role"], c["fbd"], c["pmc_params"], [len(x) for x in c["chunks"]]]) for c in cases))
+    want = [["msg", m.hex(), b] for b, m in msgs]
+    for i, (c, r, pp) in enumerate(zip(cases, res, meta)):
+        tag = f"s_nct={int(pp['server_nct'])},c_nct={int(pp['client_nct'])},s_wb={pp['server_mwb']},c_wb={pp['client_mwb']}"
+        ck.bump(f"pmce:{c['role']}:{tag}")
+        probs = [(k, w) for k, w in ws_recv.check_against_rfc(c, r) if not any(x in k for x in KNOWN_FAMILIES)]
+        got = [e for e in r["events"] if e[0] == "msg"]
+        if not probs and got != want:
+            probs.append((f"{c['role']}/deliveries-differ/compressed", f"the peer sent {len(want)} compressed messages of sizes "
+                          f"{[len(m) for _, m in msgs]}, delivered sizes {[len(e[1]) // 2 for e in got]}"))
+        for key, what in probs:
+            ck.violation(f"pmce-params/{tag}/{key}", f"[{fw}] permessage-deflate negotiated with {pp}, {c['role']} role, reads "
+                         f"{[len(x) // 2 for x in c['chunks']]}: {what}", {"fw": fw, "case": c, "observed": {k: v for k, v in r.items() if k != "tape"}},
+                         found_input=True)
+        if i % 8 == 0 and not probs and sum(len(t) for t in r["tape"]) <= 12000:
+            model_cases.append((fw, c, r))
+
+
+# ---------------- failures while the application has queued (synchronous / chopped) writes
+def pending_stage(ck, fw, base_cases, pid_tag):
+    """the receiver's reaction must not depend on what the application has in its write queue (sendMessage(sync=True),
+    sendFrame(chopsize=n): protocol.py sendData / _send): every base case is run plain, and with queued synchronous and
+    chopped writes.  With the close-handshake policy the close frame announcing 1002 / 1007 / 1009 must reach the wire --
+    after the queued data, none of which may be lost or follow it."""
+    cases, meta = [], []
+    for bc in base_cases:
+        cases.append(bc)
+        meta.append(("plain", None))
+        lim = min([x for x in (bc["max_msg"], bc["max_frame"]) if x] or [5])
+        for mode in ("sync", "chop"):
+            cases.append(dict(bc, pending_writes=dict(count=3, mode=mode, size=max(1, min(5, lim)), chop=2)))
+            meta.append((mode, len(cases) - (2 if mode == "sync" else 3)))
+    res = run_cases(ck, fw, cases, timeout=900)
+    ck.evaluations += len(cases)
+    ck.note_cases(0, (json.dumps([fw, "pending", c.get("pending_writes"), c["role"], c["fbd"], c["max_msg"], c["max_frame"], c["chunks"]]) for c in cases))
+
+    def reaction(r, pongs):
+        # queued writes reach the wire later than direct ones: what is delivered and what is written are compared as two
+        # sequences (pong replies only when the connection is not dropped: a drop discards the queue)
+        ev = r["events"]
+        return ([e for e in ev if e[0] in ("msg", "ping", "pong")],
+                [e for e in ev if e[0] in ("sendclose", "drop") or (pongs and e[0] == "sendpong")], r["state"], r["close"])
+    for c, r, (mode, ip) in zip(cases, res, meta):
+        if mode == "plain":
+            continue
+        plain = res[ip]
+        pev = plain["events"]
+        ic = next((k for k, e in enumerate(pev) if e[0] == "sendclose"), None)
+        dropped = any(e[0] == "drop" for e in pev)
+        if ic is not None and any(e[0] == "drop" for e in pev[ic:]):
+            # a second failure while our close frame is out drops the connection: with a queue the close frame is
+            # discarded with the rest.  Observed, not judged.
+            ck.bump(f"pending:{mode}:close-then-drop-in-plain-run")
+            continue
+        pw = r["pending_written"]
+        what = None
+        if reaction(r, not dropped) != reaction(plain, not dropped):
+            if ic is not None and not any(e[0] == "sendclose" for e in r["events"]):
+                what = ("close-frame-not-on-wire", f"without queued writes the reaction is {pev[ic][:2]}; with them no close frame reaches the wire")
+            else:
+                what = ("reaction-differs", f"delivered / written {[x[-3:] for x in reaction(r, not dropped)[:2]]} state {r['state']}, without queued "
+                        f"writes {[x[-3:] for x in reaction(plain, not dropped)[:2]]} state {plain['state']}")
+        elif not dropped and pw["written"] != pw["queued"]:
+            what = ("queued-data-lost", f"{pw['queued']} data frames were queued, {pw['written']} reached the wire")
+        elif pw["after_close"]:
+            what = ("data-after-close", f"{pw['after_close']} queued data frame(s) were written after our close frame")
+        ck.bump(f"pending:{mode}:{'ok' if not what else what[0]}")
+        if what:
+            ck.violation(f"pending-writes/{mode}/{c['role']}/fbd={c['fbd']}/{what[0]}",
+                         f"[{fw}] {pid_tag}: the application has {c['pending_writes']['count']} {mode} writes queued when the reads arrive "
+                         f"(limits msg={c['max_msg']} frame={c['max_frame']}): {what[1]}",
+                         {"fw": fw, "case": c, "observed": r, "plain_case": cases[ip], "plain_observed": plain}, found_input=True)
+
+
 KNOWN_FAMILIES = ("control-callback-after-violation", "processing-after-close-frame")
 
 
